@@ -1,11 +1,9 @@
--- Root of the `TRV` library: every model, spec, proof and property module.
+-- Root of the `TRV` library. Property modules (TRV.Props.*) are built on demand by `./check`;
+-- this root lists the shared model/spec/proof/oracle modules so that `lake build` covers them.
 import TRV.Basic.Bytes
 import TRV.Model.Engine
+import TRV.Model.EngineLTS
 import TRV.Spec.Engine
 import TRV.Proofs.Engine
-import TRV.Model.EngineLTS
 import TRV.Proofs.EngineLTS
-import TRV.Props.C03
-import TRV.Props.C07
-import TRV.Oracle.Util
-import TRV.Oracle.Engine
+import TRV.Props.All
